@@ -2,7 +2,7 @@
 # usage: confirm_seed.sh <PID> <i> [cargo test extra args...]   (env RUSTFLAGS honoured)
 # confirms in the scratch worktree /tmp/wt-<PID>: suite passes with patch, demo fails with patch, demo passes without.
 pid=$1; i=$2; shift 2
-wt=/tmp/wt-$pid; sd=/tmp/seed-$pid
+wt=/tmp/wt-${WT:-$pid}; sd=/tmp/${SEED_PREFIX:-seed}-${WT:-$pid}
 cd $wt || exit 2
 git checkout -q -- . ; git clean -fdq -e 'target*'
 git apply $sd/patch$i.diff || { echo "patch$i does not apply"; exit 2; }
